@@ -211,6 +211,16 @@ impl Drop for Worker {
     }
 }
 
+static POOL: std::sync::Mutex<Vec<Worker>> = std::sync::Mutex::new(Vec::new());
+
+impl Drop for Machine {
+    fn drop(&mut self) {
+        if self.g.f.flavour != Flavour::Thread {
+            POOL.lock().unwrap().extend(self.workers.drain(..));
+        }
+    }
+}
+
 pub struct StepOut {
     pub findings: Vec<MFinding>,
     pub obs: String,
@@ -229,6 +239,8 @@ pub struct Machine {
     /// C14 partitions: worker threads (fresh per history) and, for thread scope, one ghost per worker
     workers: Vec<Worker>,
     worker_ghosts: Vec<FnGhost>,
+    /// per worker thread: the keys it called and what each call did (thread-scope functions)
+    worker_trail: Vec<Vec<(u32, String)>>,
 }
 
 pub struct PendingCall {
@@ -240,6 +252,8 @@ pub struct PendingCall {
 
 /// functions called at least once in this process (= registered in the registries)
 pub static REGISTERED: std::sync::Mutex<BTreeSet<u32>> = std::sync::Mutex::new(BTreeSet::new());
+/// (function, key sequence) -> what those calls do on a thread of their own
+static SOLO: std::sync::Mutex<BTreeMap<(u32, Vec<u32>), Vec<String>>> = std::sync::Mutex::new(BTreeMap::new());
 
 fn req_matches(kind: &str, arg: &str, f: &FnInfo) -> bool {
     f.has_meta()
@@ -269,7 +283,7 @@ impl Machine {
         }
         l1::reset_scripts();
         l1::gates_reset();
-        Ok(Machine { g: FnGhost::new(f), g2: f2.map(FnGhost::new), gx: group.iter().map(|x| FnGhost::new(x)).collect(), now: START_NS, inval_seen: false, group_inval_seen: false, slots: vec![None, None], pending_seen: false, workers: Vec::new(), worker_ghosts: Vec::new() })
+        Ok(Machine { g: FnGhost::new(f), g2: f2.map(FnGhost::new), gx: group.iter().map(|x| FnGhost::new(x)).collect(), now: START_NS, inval_seen: false, group_inval_seen: false, slots: vec![None, None], pending_seen: false, workers: Vec::new(), worker_ghosts: Vec::new(), worker_trail: Vec::new() })
     }
 
     fn attribute_after_invalidation(&self, out: &mut StepOut) {
@@ -296,6 +310,55 @@ impl Machine {
         out.findings.extend(extra);
     }
 
+    /// Thread-scope isolation, judged against the implementation itself: the calls one thread made in a
+    /// history shared with other threads must do exactly what the same calls do on a thread that runs
+    /// alone (a fresh OS thread is a fresh thread-scope cache). No model of the eviction policy involved.
+    pub fn solo_check(&mut self) -> Vec<MFinding> {
+        let f = self.g.f;
+        let mut out = Vec::new();
+        if self.worker_trail.iter().filter(|t| !t.is_empty()).count() < 2 {
+            return out;
+        }
+        for (t, trail) in self.worker_trail.iter().enumerate() {
+            if trail.is_empty() {
+                continue;
+            }
+            // the reference trail of a key sequence is computed once per process (first use) and reused:
+            // isolated code gives the same answer every time, so reuse cannot raise a false alarm
+            let keys: Vec<u32> = trail.iter().map(|x| x.0).collect();
+            let cached = SOLO.lock().unwrap().get(&(f.id, keys.clone())).cloned();
+            let reference = match cached {
+                Some(r) => r,
+                None => {
+                    let w = Worker::spawn();
+                    let mut r = Vec::new();
+                    for k in &keys {
+                        l1::log_take();
+                        let x = w.call(f, *k);
+                        let executed = l1::log_take().iter().any(|e| matches!(e, Ev::Exec { .. }));
+                        r.push(match x {
+                            Ok(x) => format!("call {k}={}{}", x.render(), if executed { "!" } else { "" }),
+                            Err(_) => "panic".to_string(),
+                        });
+                    }
+                    SOLO.lock().unwrap().insert((f.id, keys.clone()), r.clone());
+                    r
+                }
+            };
+            for (i, ((k, seen), alone)) in trail.iter().zip(reference.iter()).enumerate() {
+                if alone != seen {
+                    out.push(MFinding {
+                        property: "C14",
+                        monitor: "thread-scope-not-isolated/differs-from-running-alone".into(),
+                        detail: format!("{}: call #{} of thread T{t} (key {k}) did `{seen}` in the shared history but `{alone}` when the thread's calls {:?} run alone ('!' = body executed)", f.fn_name, i + 1, trail.iter().map(|x| x.0).collect::<Vec<_>>()),
+                    });
+                    break;
+                }
+            }
+        }
+        out
+    }
+
     pub fn step(&mut self, op: &MOp) -> StepOut {
         let mut out = StepOut { findings: Vec::new(), obs: String::new(), panicked: false };
         match op {
@@ -319,8 +382,12 @@ impl Machine {
             MOp::CallOn(t, k) => {
                 let now = self.now;
                 while self.workers.len() <= *t {
-                    self.workers.push(Worker::spawn());
+                    // thread scope: a fresh OS thread per history (a fresh cache); shared caches are emptied between
+                    // histories, so their worker threads can be reused
+                    let pooled = if self.g.f.flavour == Flavour::Thread { None } else { POOL.lock().unwrap().pop() };
+                    self.workers.push(pooled.unwrap_or_else(Worker::spawn));
                     self.worker_ghosts.push(FnGhost::new(self.g.f));
+                    self.worker_trail.push(Vec::new());
                 }
                 let thread_scope = self.g.f.flavour == Flavour::Thread;
                 let before = out.findings.len();
@@ -330,6 +397,9 @@ impl Machine {
                 } else {
                     // global / async: one shared cache, whichever thread calls
                     call_step_on(&mut self.g, *k, now, &mut out, Some(&self.workers[*t]));
+                }
+                if thread_scope {
+                    self.worker_trail[*t].push((*k, out.obs.clone()));
                 }
                 out.obs = format!("T{t}:{}", out.obs);
                 // whatever the sequential monitors object to in a history that is merely spread over threads is a C14 matter
@@ -612,6 +682,7 @@ fn call_step(g: &mut FnGhost, k: u32, now: u64, out: &mut StepOut) {
 fn call_step_on(g: &mut FnGhost, k: u32, now: u64, out: &mut StepOut, worker: Option<&Worker>) {
     let f = g.f;
     let fam = f.family;
+    let first_finding = out.findings.len();
     let pre_listed = g.listed();
     if let Some(pl) = &pre_listed {
         // presence is what the cache physically holds
@@ -700,7 +771,18 @@ fn call_step_on(g: &mut FnGhost, k: u32, now: u64, out: &mut StepOut, worker: Op
         }
         if let Some(Ev::InvalOn { key, val, verdict, .. }) = io.first() {
             stale = *verdict;
-            let cached = had.as_ref().map(|e| format!("{:?}", l1::value(f.id, k, e.ver))).unwrap_or_default();
+            let cached = had
+                .as_ref()
+                .map(|e| {
+                    if f.is_result && e.is_err {
+                        format!("{:?}", Err::<String, String>(format!("e{}k{k}", f.id)))
+                    } else if f.is_result {
+                        format!("{:?}", Ok::<String, String>(l1::value(f.id, k, 0)))
+                    } else {
+                        format!("{:?}", l1::value(f.id, k, e.ver))
+                    }
+                })
+                .unwrap_or_default();
             if *key != key_str || *val != cached {
                 out.findings.push(MFinding { property: "C11", monitor: "consulted-with-wrong-arguments".into(), detail: format!("{}({k}): invalidate_on saw ({key}, {val}), cached entry is ({key_str}, {cached})", f.fn_name) });
             }
@@ -873,6 +955,16 @@ fn call_step_on(g: &mut FnGhost, k: u32, now: u64, out: &mut StepOut, worker: Op
             }
         }
     }
+    // a refresh (invalidate_on said stale, the body ran) replaces one entry: whatever else it does to the
+    // cache is a C11 matter as well
+    if f.has_inval_on && had.is_some() && executed && stale {
+        let more: Vec<MFinding> = out.findings[first_finding..]
+            .iter()
+            .filter(|x| matches!(x.property, "C04" | "C05" | "C07"))
+            .map(|x| MFinding { property: "C11", monitor: format!("refresh-disturbed-the-cache/{}/{}", x.property, x.monitor), detail: x.detail.clone() })
+            .collect();
+        out.findings.extend(more);
+    }
     // ---------------- ghost update
     // a lookup was a hit iff it found an unexpired entry: the call was served, or the entry was at least shown to invalidate_on
     if !executed || !io.is_empty() {
@@ -1036,6 +1128,12 @@ fn run_history(s: &Suite, hist: &[MOp], prefix: &[usize], property: &str) -> (Ve
                 break;
             }
         }
+        if !outs.last().map_or(true, |o| o.panicked) {
+            let extra = m.solo_check();
+            if let Some(last) = outs.last_mut() {
+                last.findings.extend(extra);
+            }
+        }
         outs
     };
     let partitioned = hist.iter().any(|o| matches!(o, MOp::CallOn(..)));
@@ -1135,6 +1233,22 @@ pub fn explore_suite(s: &Suite, property: &str) -> SuiteResult {
                 if !pending_history_is_tight(&hist[..l]) {
                     skip_at = Some(l - 1);
                     break;
+                }
+            }
+        }
+        // partitioned histories: worker threads are interchangeable, so only histories that name them in order
+        // of first use are run (T1 never before T0, T2 never before T1); the others are renamings of these
+        if skip_at.is_none() {
+            let mut used = 0usize;
+            for (l, o) in hist.iter().enumerate() {
+                if let MOp::CallOn(t, _) = o {
+                    if *t > used {
+                        skip_at = Some(l);
+                        break;
+                    }
+                    if *t == used {
+                        used += 1;
+                    }
                 }
             }
         }
@@ -1273,7 +1387,12 @@ pub fn suites_for(property: &str, thorough: bool) -> Vec<Suite> {
             }
             if property == "C01" || property == "C16" {
                 for f in fam("inval_on").into_iter().chain(fam("result")).chain(fam("cache_if")) {
-                    out.push(Suite { f, f2: None, group: vec![], wash: false, prune_noops: false, alphabet: vec![MOp::Call(1), MOp::Call(2)], depth: d(3, 4) });
+                    let mut a = vec![MOp::Call(1), MOp::Call(2)];
+                    if f.versioned && f.mem.is_some() {
+                        // key 8: fits at first, every refreshed value is too large to be stored
+                        a.push(MOp::Call(8));
+                    }
+                    out.push(Suite { f, f2: None, group: vec![], wash: false, prune_noops: false, alphabet: a, depth: d(3, 4) });
                 }
             }
         }
@@ -1302,7 +1421,10 @@ pub fn suites_for(property: &str, thorough: bool) -> Vec<Suite> {
                 if f.mem.is_some() {
                     a.push(MOp::Call(9));
                 }
-                out.push(Suite { f, f2: None, group: vec![], wash: false, prune_noops: false, alphabet: a, depth: d(4, 5) });
+                if f.ttl.is_some() {
+                    a.push(MOp::Tick);
+                }
+                out.push(Suite { f, f2: None, group: vec![], wash: false, prune_noops: false, alphabet: a, depth: if f.ttl.is_some() { d(5, 6) } else { d(4, 5) } });
             }
         }
         "C10" => {
@@ -1311,13 +1433,16 @@ pub fn suites_for(property: &str, thorough: bool) -> Vec<Suite> {
                 if f.limit.is_some() || thorough {
                     a.push(MOp::Call(3));
                 }
-                out.push(Suite { f, f2: None, group: vec![], wash: false, prune_noops: false, alphabet: a, depth: d(4, 5) });
+                if f.ttl.is_some() {
+                    a.push(MOp::Tick);
+                }
+                out.push(Suite { f, f2: None, group: vec![], wash: false, prune_noops: false, alphabet: a, depth: if f.ttl.is_some() { d(5, 6) } else { d(4, 5) } });
             }
         }
         "C11" => {
             for f in fam("inval_on") {
                 let mut a = vec![MOp::Call(1), MOp::Call(2)];
-                if thorough {
+                if thorough || f.limit == Some(2) {
                     a.push(MOp::Call(3));
                 }
                 if f.ttl.is_some() {
@@ -1363,7 +1488,7 @@ pub fn suites_for(property: &str, thorough: bool) -> Vec<Suite> {
             // every call history over two keys, every assignment of its calls to 2-3 threads, executed in
             // history order at call granularity (finer interleavings: the scheduler drivers of thrx)
             let nthreads = if thorough { 3 } else { 2 };
-            for f in fam("core").into_iter().filter(|f| f.ttl.is_none() && f.mem.is_none() && f.limit != Some(3) && f.pol() != Pol::Random) {
+            for f in fam("core").into_iter().filter(|f| f.ttl.is_none() && (f.mem.is_none() || f.mem == Some(70)) && f.limit != Some(3) && f.pol() != Pol::Random) {
                 let keys: Vec<u32> = match f.limit {
                     Some(1) => vec![1, 2],
                     _ => vec![1, 2, 3],
